@@ -116,7 +116,7 @@ theorem cached_faults_only_as_uncached (o : CacheOps σ) (wf : σ → Prop) (ct 
 tree with `failAt` alone -/
 theorem current_tree_noStale : Cfg.repaired.noStale := Or.inl rfl
 
-example : (⟨false, false, true⟩ : Cfg).noStale := Or.inr rfl
+example : (⟨false, false, true, false⟩ : Cfg).noStale := Or.inr rfl
 
 /-! ### instances -/
 
@@ -219,6 +219,40 @@ def fifo_transparent_repaired_full : Prop :=
   ∀ (f : File), FileOK f → ∀ (ops : List (Op LCache)), (∀ op ∈ ops, OpOK fifoOps LCache.WF op) →
     ∀ outs, outputs Cfg.repaired fifoOps f ops = .ok outs →
       outputs Cfg.repaired fifoOps f (ops.map Op.uncached) = .ok outs
+
+/-! ### attaching again a cache that was used before (SetCache(nil) … SetCache(the same cache))
+
+`run2` runs a history in which the cache attached by the first part is detached (`SetCache(nil)`), the reader goes
+on without it, and the very same cache — with the blocks it holds — is attached again. -/
+
+def run2 (cfg : Cfg) (o : CacheOps σ) (f : File) (ops1 mid ops2 : List (Op σ)) : Except Fault (List Out) :=
+  match newReader o cfg f with
+  | .error e => .error e
+  | .ok (r0, e) =>
+    if e ≠ .none then .ok []
+    else match run cfg o f r0 ops1 with
+      | .error e => .error e
+      | .ok (r1, o1) =>
+        match run cfg o f r1 (.setCache none [] :: mid) with
+        | .error e => .error e
+        | .ok (r2, o2) =>
+          match run cfg o f r2 (.setCache r1.cache r1.hints :: ops2) with
+          | .error e => .error e
+          | .ok (_, o3) => .ok (o1 ++ o2 ++ o3)
+
+/-- FIFO(4): Read 8 (b0 and part of b1); Seek b0 (hit: the used block stays in the FIFO); SetCache(nil); Seek b2
+(the block is recycled for "CCCC"); SetCache(the same FIFO); Seek b0; Read 2.
+Without repair C03-5 (variant ⟨…, lentGuard := false⟩) the last Read returns "CC" … -/
+theorem fifo_reattach_witness :
+    (bytesOf (run2 ⟨true, true, true, false⟩ fifoOps file3
+      [.setCache (some (LCache.new 4)) [], .read 8, .seek 0 0] [.seek 70 0] [.seek 0 0, .read 2])).getLast? =
+      some ([67, 67], .ok) := by decide
+
+/-- … with repair C03-5 it returns "AA", as the uncached reader does -/
+theorem fifo_reattach_repaired :
+    (bytesOf (run2 Cfg.repaired fifoOps file3
+      [.setCache (some (LCache.new 4)) [], .read 8, .seek 0 0] [.seek 70 0] [.seek 0 0, .read 2])).getLast? =
+      some ([65, 65], .ok) := by decide
 
 /-! ### read-ahead with a cache (rd > 1): the recorded finding, pinned on an abstract transition system
 
